@@ -33,6 +33,23 @@ CLAIMED["C18"] = dict(
     text="Proof by induction on the formula, obligations discharged mechanically on the current source: (O1) for every operator outside {EX,AX,AF,EG,AU,EW} the value of eval_node does not depend on steady_states except verbatim in recursive calls; (O2) recursive calls pass it on unchanged; (O3) the steady-state shortcut is reachable only for nodes containing AX; (O4) model_check_formula_unsafe_ex differs from the standard pipeline only in that argument (same validator, same graph, a context that is from_multiple_trees(vec![tree]) field by field, the empty set of the same graph). Hence both variants return the same raw set on the fragment; on steady-state-free networks both pass an empty set.",
     note=TRUST + "The proof is modulo L1, L2, L5 (library set algebra; FixedPoints::symbolic is empty when no colour has a steady state).", ref="5/C18")
 
+CLAIMED["C02"] = dict(
+    technique="static analysis: partial evaluation of eval_node's value-numbering summary for domain quantifier shapes compared with the documented equations; unit-boundedness abstract interpretation of every return path; call-site/path-condition rules for context validation, wild-card binding, scope pairing and cache admission",
+    text="Decides, for all bodies, networks and context sets: the three domain quantifier shapes compute the documented equation (child on the graph restricted by the translated domain, quantifier on the outer graph, forall's inner complement in the restricted universe, empty/unit shortcut exactly when the restricted unit set is empty); every leaf and return path is relative to the current (possibly restricted) graph; every extended entry point evaluates only trees validated against the caller's context, absent labels give Err, the wild-card set is installed under the text the terminal prints as and is served from the cache only; scope entries are removed on every exit; nothing computed in a restricted scope is cached under a key that does not name the restriction. The README equivalences as set equalities are not decided.",
+    note=TRUST, ref="5/C02")
+CLAIMED["C03"] = dict(
+    technique="static analysis: abstract interpretation (unit-boundedness domain) over value-numbering summaries of every return path of eval_node per node shape and of every evaluator; who-may-complement rule; equation rules for the projection primitives and the unit-set construction",
+    text="Decides the clause 'every returned set is a subset of unit(graph)' on every return path of eval_node (84 path/shape instances incl. cache hits and shortcuts) and of every evaluator, assuming only that recursive results are bounded by their own graph (induction); no absolute complement flows into a result; quantifiers project exactly their own variable's copy and cache hits are admitted only for keys naming every restriction in force (structural half of 'closed results do not depend on auxiliary variables'); the unit set is the regulation constraints applied to true and restriction only intersects. Cardinalities are not decided.",
+    note=TRUST + "L3/L4 (unit sets are products not constraining state variables) are assumed.", ref="5/C03")
+CLAIMED["C04"] = dict(
+    technique="static analysis: may-token path analysis for scope pairing; Boolean implication between path conditions and the cache admission guard (truth tables over canonical atoms); sibling comparison of the writer's and reader's key recipe; call-site rules for the batch drivers; type-resolved hash-iteration classification",
+    text="Decides necessary conditions of history independence on every path: the scope entry is removed on every exit of eval_node; writer and reader build the cache key by the same recipe and all cache operations use that one key; stores and hits happen only when the key names every restriction in force and hits are intersected with the current unit set; only fresh results are stored, eviction happens only at counter zero and never for wild-cards, one decrement per hit; on a hit the set is renamed from the stored to the current name of the same canonical variable; batch drivers build one context from the list they evaluate in order; hash-container iteration feeds only order-insensitive uses. Equality of sets between batch and single evaluation is not decided.",
+    note=TRUST + "Assumes canonical text identifies sub-formulae up to renaming (C09, not decided).", ref="5/C04")
+CLAIMED["C10"] = dict(
+    technique="static analysis: table agreement between the wild-card cache key template and the Display template; partial evaluation of eval_node for the wild-card terminal; cache-protocol implications; sibling comparison of the plain and extended pipelines",
+    text="Decides: the wild-card set is stored under exactly the text the terminal prints as (and the canoniser copies that text); a wild-card terminal is served by the cache-hit path only, always admitted, never evicted, its value is the stored set intersected with the current unit set; no scope entry can leak and change keys; the plain and extended drivers are the same pipeline up to parser flavour and wild-card handling whose effect is confined to two loops over the (then empty) context. Equality of results under substitution is not decided.",
+    note=TRUST, ref="5/C10")
+
 NOT_APPLICABLE = {
     "C09": "value-level property of a character-level rewriting (canonical strings coincide exactly for alpha-equivalent inputs, injectivity, idempotence, occurrence lower bounds); the only structural necessary condition (duplicates marked only for <= 1 variable) is a clause of C04 and is checked there (DESIGN.md section 9)",
 }
